@@ -19,3 +19,4 @@ def run(ck):
     image.r_embedded_region_finalised(ck, P)
     alloc.r12_region_storage_released_before_overwrite(ck, P)
     image.r20_11_half_built_image_is_freed_raw(ck, P)
+    image.r20_12_fini_releases_the_alpha_map_on_every_path(ck, P)
